@@ -4159,8 +4159,10 @@ func c09Once(w *World, r *Result, rule string) {
 				n++
 				pos := w.Pos(mk.Pos())
 				key := "once:" + FuncName(fn)
-				// (shared) anchor.F = p.F for a map field F
+				// (shared) anchor.F = p.F for a map field F, or for a pointer to a bookkeeping object
+				// whose methods consult and update a map of their receiver
 				shared := map[int]bool{}
+				sharedObj := map[int]bool{}
 				for _, b2 := range fn.Blocks {
 					for _, i2 := range b2.Instrs {
 						st, ok := i2.(*ssa.Store)
@@ -4171,12 +4173,20 @@ func c09Once(w *World, r *Result, rule string) {
 						if !ok || fa.X != anchor {
 							continue
 						}
-						if _, isMap := st.Val.Type().Underlying().(*types.Map); !isMap {
+						_, isMap := st.Val.Type().Underlying().(*types.Map)
+						isObj := false
+						if pt, ok := st.Val.Type().Underlying().(*types.Pointer); ok {
+							_, isObj = pt.Elem().Underlying().(*types.Struct)
+						}
+						if !isMap && !isObj {
 							continue
 						}
 						if u, ok := st.Val.(*ssa.UnOp); ok {
 							if f2, ok := u.X.(*ssa.FieldAddr); ok && f2.X == ssa.Value(fn.Params[0]) && f2.Field == fa.Field {
 								shared[fa.Field] = true
+								if isObj {
+									sharedObj[fa.Field] = true
+								}
 							}
 						}
 					}
@@ -4209,8 +4219,23 @@ func c09Once(w *World, r *Result, rule string) {
 					return dep(k, 0) || len(src.calls["path/filepath.Join"]) > 0 || len(src.calls["path/filepath.Abs"]) > 0
 				}
 				tested, recorded := false, false
+				objCalls := map[ssa.Value]bool{}
 				for _, b2 := range fn.Blocks {
 					for _, i2 := range b2.Instrs {
+						if mc, ok := i2.(*ssa.Call); ok && len(sharedObj) > 0 && len(mc.Call.Args) == 2 {
+							if u, ok := mc.Call.Args[0].(*ssa.UnOp); ok {
+								if fa, ok := u.X.(*ssa.FieldAddr); ok && fa.X == ssa.Value(fn.Params[0]) && sharedObj[fa.Field] && fromImport(mc.Call.Args[1]) {
+									looks, updates := setMethodSummary(mc.Call.StaticCallee())
+									if looks && mc.Referrers() != nil && len(*mc.Referrers()) > 0 {
+										tested = true
+										objCalls[mc] = true
+									}
+									if updates {
+										recorded = true
+									}
+								}
+							}
+						}
 						switch x := i2.(type) {
 						case *ssa.Lookup:
 							if u, ok := x.X.(*ssa.UnOp); ok {
@@ -4243,6 +4268,9 @@ func c09Once(w *World, r *Result, rule string) {
 							}
 						}
 					}
+				}
+				for v := range objCalls {
+					onceVals[v] = true
 				}
 				for changed := true; changed; {
 					changed = false
@@ -4445,6 +4473,38 @@ func c09Once(w *World, r *Result, rule string) {
 	if n == 0 {
 		r.Bad(rule, "once:none", "-", "no place found where a parser for an imported file is created")
 	}
+}
+
+// setMethodSummary: a method of a bookkeeping object with one key parameter: does it consult a
+// map of its receiver under that key, does it enter the key into it?
+func setMethodSummary(m *ssa.Function) (looks, updates bool) {
+	if m == nil || len(m.Params) != 2 || len(m.Blocks) == 0 {
+		return false, false
+	}
+	recv, key := m.Params[0], m.Params[1]
+	ofRecv := func(v ssa.Value) bool {
+		u, ok := v.(*ssa.UnOp)
+		if !ok {
+			return false
+		}
+		fa, ok := u.X.(*ssa.FieldAddr)
+		return ok && fa.X == ssa.Value(recv)
+	}
+	for _, b := range m.Blocks {
+		for _, ins := range b.Instrs {
+			switch x := ins.(type) {
+			case *ssa.Lookup:
+				if ofRecv(x.X) && x.Index == ssa.Value(key) {
+					looks = true
+				}
+			case *ssa.MapUpdate:
+				if ofRecv(x.Map) && x.Key == ssa.Value(key) {
+					updates = true
+				}
+			}
+		}
+	}
+	return
 }
 
 // scopeCounterQueries: scopes kept as one counter per kind instead of a stack. A function
